@@ -88,7 +88,8 @@ def rt_entry(decl, toks, prop, env=None, second=None, vin=()):
         rt['V_NTOK_B'] = str(len(second))
         for i, t in enumerate(second):
             rt['V_U%d' % i] = t
-    return (['-DDECL=%d' % decl, '-DPROP_%s' % prop], list(vin), rt)
+    # C03 leaves open whether "a;" has a trailing empty element (see harness/C03/plan.py): same setting as its queries
+    return (['-DDECL=%d' % decl, '-DPROP_%s' % prop] + (['-DENV_TRAILING_SEP_EITHER'] if prop == 'C03' else []), list(vin), rt)
 
 
 def base_corpus(prop, decls=None, envdecls=None):
